@@ -192,6 +192,38 @@ def refusals(so, disabled, workdir, tag):
     return errs
 
 
+def refusal_messages(so, items, workdir, tag):
+    """educe's own diagnostics (errors without a rustc code) per input, for inputs that are invalid by construction"""
+    path = os.path.join(workdir, "offences_%s.rs" % tag)
+    starts = []
+    with open(path, "w") as f:
+        f.write("#![allow(dead_code)]\n")
+        line = 2
+        for i, src in items:
+            text = "mod o%d { use educe::Educe;\n%s\n}\n" % (i, src)
+            starts.append((line, i))
+            line += text.count("\n")
+            f.write(text)
+    p = subprocess.run(["rustc", "--edition", "2021", "--crate-type", "lib", "--emit=metadata", "--error-format=json", "--out-dir", workdir,
+                        "--extern", "educe=" + so, path], capture_output=True, text=True, timeout=900)
+    out = {i: [] for i, _ in items}
+    for l in p.stderr.splitlines():
+        try:
+            d = json.loads(l)
+        except ValueError:
+            continue
+        if d.get("level") != "error" or d.get("code") or not d.get("spans"):
+            continue
+        ln = d["spans"][0]["line_start"]
+        owner = None
+        for s0, i in starts:
+            if s0 <= ln:
+                owner = i
+        if owner is not None:
+            out[owner].append(d["message"].split("\n")[0][:160])
+    return out
+
+
 def main(tier):
     t0 = time.time()
     proof = common.proof_obligations("C18")
@@ -249,12 +281,18 @@ def main(tier):
         if s not in beh:
             beh.append(s)
     defs = list(enumerate(pool(rng, 150 if tier == "quick" else 600)))
+    # inputs that are refused by design (C13's invalid-by-construction stream): a subset build must refuse them alike
+    from .. import offences
+    off_all = [(k, src, named_traits(src)) for k, (label, classes, src) in enumerate(offences.generate())]
+    rng.shuffle(off_all)
+    off_all = off_all[: (300 if tier == "quick" else 1500)]
     rc, errs, _ = check_subset(base, closure(TRAITS, table), os.path.join(work, "all"), link=True)
     so_all = os.path.join(work, "all", "libeduce.so")
     if rc != 0 or not os.path.exists(so_all):
         tie["broken"].append("harness: the all-features proc-macro does not link: " + "; ".join(errs[:2]))
         return common.finish("C18", tier, t0, proof, tie)
     full, full_errs = expand_with(so_all, defs, work, "all")
+    full_ref = refusal_messages(so_all, [(k, src) for k, src, _ in off_all], os.path.join(work, "all"), "all")
     if full_errs:
         tie["broken"].append("harness: the all-features build refuses part of the pool: " + full_errs[0][:200])
 
@@ -270,15 +308,27 @@ def main(tier):
         got, gerrs = expand_with(so, mine, d, "s")
         disabled = [t for t in TRAITS if t not in s]
         ref = refusals(so, disabled, d, "s")
-        return s, en, (mine, got, gerrs), disabled, ref
+        offs = [(k, src) for k, src, names in off_all if names and names <= set(s)]
+        offm = refusal_messages(so, offs, d, "s") if offs else {}
+        return s, en, (mine, got, gerrs), disabled, (ref, offm)
 
     with ThreadPoolExecutor(max_workers=8) as ex:
         bres = list(ex.map(beh_job, enumerate(beh)))
     compared = 0
+    off_src = {k: src for k, src, _ in off_all}
+    refused_alike = 0
     for s, en, exp, disabled, ref in bres:
         label = "--no-default-features --features '%s'" % " ".join(s)
         if exp is None:
             continue  # already reported by the build part
+        ref, offm = ref
+        for k, msgs in offm.items():
+            tie["evaluations"] += 1
+            if sorted(msgs) != sorted(full_ref.get(k, [])):
+                tie["failing"].append({"what": "an input the all-features build refuses is treated differently by the subset build", "features": label,
+                                       "rust_source": off_src[k], "observed": msgs[:3] or "accepted", "expected_spec": full_ref.get(k, [])[:3]})
+                break
+            refused_alike += 1
         mine, got, gerrs = exp
         for e in gerrs[:1]:
             tie["failing"].append({"what": "a definition naming only enabled traits is refused in the subset build", "features": label,
@@ -308,6 +358,7 @@ def main(tier):
                 break
     tie["extra"]["behaviour_subsets"] = [" ".join(s) for s in beh]
     tie["extra"]["expansions_compared_with_full_build"] = compared
+    tie["extra"]["refusals_compared_with_full_build"] = refused_alike
     tie["failing"] = tie["failing"][:4]
     tie["rule"] = ("(b) /repo/src/lib.rs compiled by rustc (--emit=metadata, the dependency artifacts of the real build, cargo's --check-cfg for the "
                    "declared features) once per feature subset, cfg set = closure of the subset under Cargo.toml's feature table: quick = the empty "
@@ -315,7 +366,8 @@ def main(tier):
                    "explicit compile_error. (a) for 6 (thorough 40) subsets the real proc-macro is linked and a pool of definitions naming only "
                    "enabled traits (fixed simple forms per trait and couple + the behavioural generators) is expanded with rustc -Zunpretty=expanded; "
                    "each module's expansion must equal the all-features build's; each disabled trait must be refused with `unsupported trait`, the "
-                   "message listing exactly the enabled traits. distinct_nontrivial = non-empty subsets compiled")
+                   "message listing exactly the enabled traits; inputs that are invalid by construction (C13's stream, those naming only enabled "
+                   "traits) must draw the same educe diagnostics as in the all-features build. distinct_nontrivial = non-empty subsets compiled")
     tie["samples"] = [{"features": " ".join(s)} for s in subsets[13:16]]
     import shutil
     shutil.rmtree(work, ignore_errors=True)
